@@ -75,6 +75,7 @@ pub fn run_case(env: &Env, ctx: &mut Ctx, idx: u64) {
         let _ = exec(&c, &mut rb);
         hist.push(c);
     }
+    let mut repeated = 0usize;
     if rng.chance(1, 12) {
         // accumulation: one small failing call repeated many times (a counter that leaks one per failure, a stack
         // that grows by one per open region, needs many of them before a later call notices)
@@ -84,6 +85,7 @@ pub fn run_case(env: &Env, ctx: &mut Ctx, idx: u64) {
         for _ in 0..n {
             let _ = exec(&c, &mut rb);
         }
+        repeated = n;
         ctx.count("histories_with_a_repeated_failing_call", 1);
         ctx.count("repeated_failing_calls", n as u64);
         hist.push(c);
@@ -150,6 +152,7 @@ pub fn run_case(env: &Env, ctx: &mut Ctx, idx: u64) {
             .s("in_history", &got.brief())
             .s("fresh", &fresh.brief())
             .s("residue", &format!("{:?}", snap))
+            .n("last_history_call_repeated_times", repeated as u64)
             .done();
         ctx.violation("history-dependence", "", &m, w);
     }
